@@ -19,12 +19,29 @@ func (c *Ctx) boundsInit() {
 		return
 	}
 	c.boundsReady = true
+	pc.assumedNonNeg = map[string][]int{}
+	if b, err := os.ReadFile(filepath.Join(c.VerifDir, "spec", "reviewed_safe.json")); err == nil {
+		var t struct {
+			Pre []struct {
+				Function string `json:"function"`
+				Param    int    `json:"param_index"`
+			} `json:"assumed_preconditions"`
+		}
+		if json.Unmarshal(b, &t) == nil {
+			for _, p := range t.Pre {
+				pc.assumedNonNeg[p.Function] = append(pc.assumedNonNeg[p.Function], p.Param)
+			}
+		}
+	}
 	for _, fn := range c.Fns {
 		for _, b := range fn.Blocks {
 			for _, ins := range b.Instrs {
 				if ci, ok := ins.(ssa.CallInstruction); ok {
 					if callee := ci.Common().StaticCallee(); callee != nil {
 						pc.callers[callee] = append(pc.callers[callee], ci)
+					}
+					if ci.Common().IsInvoke() {
+						pc.dynMethods[ci.Common().Method.Name()] = true
 					}
 				}
 				for _, op := range ins.Operands(nil) {
@@ -114,8 +131,26 @@ func ruleBounds(c *Ctx, r *Report) {
 	if rerr != nil {
 		r.Unk(rule, "reviewed-safe-table", "", "cannot read spec/reviewed_safe.json: "+rerr.Error())
 	}
+	base := loadBoundsBaseline(c.VerifDir)
 	used := map[string]bool{}
-	proved, nReviewed := 0, 0
+	proved, nReviewed, nMoved, nNew := 0, 0, 0, 0
+	// which (kind|nshape) each function still contains, to tell "moved" from "duplicated"
+	has := map[string]bool{}
+	for _, s := range all {
+		has[short(s.f)+"|"+s.what+"|"+normSiteShape(s.ins)] = true
+	}
+	unitOf := map[*ssa.Function]map[*ssa.Function]bool{}
+	inUnit := func(owner, g *ssa.Function) bool {
+		m, ok := unitOf[owner]
+		if !ok {
+			m = map[*ssa.Function]bool{}
+			for _, f := range c.unitFuncs(owner) {
+				m[f] = true
+			}
+			unitOf[owner] = m
+		}
+		return m[g]
+	}
 	for _, s := range all {
 		r.Sites++
 		if s.ok {
@@ -123,16 +158,68 @@ func ruleBounds(c *Ctx, r *Report) {
 			continue
 		}
 		f := strings.TrimPrefix(s.pos.Filename, c.Repo+"/")
-		fnName := strings.ReplaceAll(strings.ReplaceAll(s.fn, modPath+"/", ""), modPath+".", "dtls.")
+		pos := fmt.Sprintf("%s:%d", f, s.pos.Line)
+		fnName := short(s.f)
 		shape := siteShape(s.ins)
-		k := fnName + "|" + s.what + "|" + shape
+		nshape := normSiteShape(s.ins)
+		k := fnName + "|" + s.what + "|" + nshape
+		key := fmt.Sprintf("%s:%s", fnName, s.what)
 		if rv, ok := coveredBy(reviewed[k], s.goal); ok {
 			nReviewed++
 			used[k] = true
-			r.OKTrivial("bounds-reviewed", fmt.Sprintf("%s:%s", fnName, s.what), fmt.Sprintf("%s:%d", f, s.pos.Line), rv.Verdict+": "+rv.Reason)
+			r.OKTrivial("bounds-reviewed", key, pos, rv.Verdict+": "+rv.Reason)
 			continue
 		}
-		r.Bad(rule, fmt.Sprintf("%s:%s", fnName, s.what), fmt.Sprintf("%s:%d", f, s.pos.Line), "index/slice not proven in range (unproven sub-goals "+s.goal+" of: index>=0,index<len | lo>=0,hi>=lo,hi<=cap | len>=n) and not covered by the reviewed-safe table: "+shape)
+		// the reviewed code was moved into a private helper of the reviewed function (or the
+		// reviewed function was folded into its caller): the judgement follows the code
+		moved := false
+		for rk, es := range reviewed {
+			if moved {
+				break
+			}
+			parts := strings.SplitN(rk, "|", 3)
+			if len(parts) != 3 || parts[1] != s.what || parts[2] != nshape || has[rk] {
+				continue
+			}
+			rv, ok := coveredBy(es, s.goal)
+			if !ok {
+				continue
+			}
+			owner := c.Fn(parts[0])
+			switch {
+			case owner != nil && (inUnit(owner, s.f) || inUnit(s.f, owner)):
+				moved = true
+			case owner == nil && pkgOfName(parts[0]) == pkgOfName(fnName):
+				moved = true
+			}
+			if moved {
+				nMoved++
+				used[rk] = true
+				r.OKTrivial("bounds-reviewed", key, pos, "moved from "+parts[0]+": "+rv.Verdict+": "+rv.Reason)
+			}
+		}
+		if moved {
+			continue
+		}
+		// a site the reviewed tree proved (same function, same expression) that is no longer
+		// proven: a guard was removed or weakened
+		if st, ok := base[k]; ok && st.Status == "proved" {
+			r.Bad(rule, key, pos, "index/slice was proven in range on the reviewed tree and no longer is (unproven sub-goals "+s.goal+" of: index>=0,index<len | lo>=0,hi>=lo,hi<=cap | len>=n): a bounds check was removed or weakened: "+shape)
+			continue
+		}
+		if st, ok := base[k]; ok && st.Status == "reviewed" {
+			r.Bad(rule, key, pos, "index/slice needs more than its review covered (unproven sub-goals "+s.goal+"; reviewed: "+st.Goals+"): "+shape)
+			continue
+		}
+		// an expression that did not exist on the reviewed tree (new or re-cut code): it must at
+		// least be related to a check that is in force at the site; the residual proof obligation
+		// is listed as information with its sub-goals
+		if !s.rel {
+			r.Bad(rule, key, pos, "new index/slice expression with no bounds check in force that mentions its index or its container (unproven sub-goals "+s.goal+"): "+shape+"  [nshape "+nshape+"]")
+			continue
+		}
+		nNew++
+		r.Note("bounds-unproven-new", key+":"+nshape, pos, "expression not present on the reviewed tree; related checks are in force but the linear prover cannot conclude (sub-goals "+s.goal+"): "+shape)
 	}
 	stale := 0
 	for k := range reviewed {
@@ -140,6 +227,8 @@ func ruleBounds(c *Ctx, r *Report) {
 			stale++
 		}
 	}
+	r.Extra["bounds_reviewed_moved"] = nMoved
+	r.Extra["bounds_unproven_new_guarded"] = nNew
 	r.Extra["bounds_sites"] = len(all)
 	r.Extra["bounds_proved"] = proved
 	r.Extra["bounds_reviewed_safe"] = nReviewed
@@ -152,6 +241,7 @@ type reviewedSite struct {
 	Function string `json:"function"`
 	Kind     string `json:"kind"`
 	Shape    string `json:"shape"`
+	NShape   string `json:"nshape"`
 	Unproven string `json:"unproven"`
 	Verdict  string `json:"verdict"`
 	Reason   string `json:"reason"`
@@ -191,7 +281,7 @@ func loadReviewed(verif string) (map[string][]reviewedSite, error) {
 	}
 	out := map[string][]reviewedSite{}
 	for _, s := range t.Sites {
-		k := s.Function + "|" + s.Kind + "|" + s.Shape
+		k := s.Function + "|" + s.Kind + "|" + s.NShape
 		out[k] = append(out[k], s)
 	}
 	return out, nil
@@ -737,4 +827,116 @@ func rulePacketQueueProgress(c *Ctx, r *Report) {
 		}
 	}
 	r.Floor(rule, n, 2)
+}
+
+type baseSite struct {
+	Status string `json:"status"` // proved | reviewed
+	Goals  string `json:"goals,omitempty"`
+}
+
+// loadBoundsBaseline: function|kind|nshape -> how the reviewed tree decided that site.
+func loadBoundsBaseline(verif string) map[string]baseSite {
+	out := map[string]baseSite{}
+	b, err := os.ReadFile(filepath.Join(verif, "spec", "bounds_baseline.json"))
+	if err != nil {
+		return out
+	}
+	var t struct {
+		Sites map[string]baseSite `json:"sites"`
+	}
+	if json.Unmarshal(b, &t) == nil {
+		out = t.Sites
+	}
+	return out
+}
+
+// genBoundsBaseline records the decision of every site in scope on the reviewed tree and
+// (first run after a change of the shape notation) fills the normalised shape of the reviewed
+// entries. Used only through `dtlsvet -gen-bounds-baseline`.
+func (c *Ctx) genBoundsBaseline() error {
+	c.boundsInit()
+	r := newReport("C08")
+	scope := c.attackerScope(r, "bounds")
+	path := filepath.Join(c.VerifDir, "spec", "reviewed_safe.json")
+	raw, err := os.ReadFile(path)
+	if err != nil {
+		return err
+	}
+	var doc map[string]json.RawMessage
+	if err := json.Unmarshal(raw, &doc); err != nil {
+		return err
+	}
+	var sites []reviewedSite
+	if err := json.Unmarshal(doc["sites"], &sites); err != nil {
+		return err
+	}
+	byOld := map[string][]int{}
+	for i, s := range sites {
+		byOld[s.Function+"|"+s.Kind+"|"+s.Shape] = append(byOld[s.Function+"|"+s.Kind+"|"+s.Shape], i)
+	}
+	base := map[string]baseSite{}
+	for _, fn := range c.Fns {
+		if !scope[fn] {
+			continue
+		}
+		for _, s := range boundsAnalyse(fn, c.Fset) {
+			k := short(fn) + "|" + s.what + "|" + normSiteShape(s.ins)
+			if s.ok {
+				if _, dup := base[k]; !dup {
+					base[k] = baseSite{Status: "proved"}
+				}
+				continue
+			}
+			for _, i := range byOld[short(fn)+"|"+s.what+"|"+siteShape(s.ins)] {
+				sites[i].NShape = normSiteShape(s.ins)
+			}
+			if len(byOld[short(fn)+"|"+s.what+"|"+siteShape(s.ins)]) == 0 {
+				fmt.Println("not proven and not reviewed:", k, "goals", s.goal)
+				continue
+			}
+			prev := base[k]
+			base[k] = baseSite{Status: "reviewed", Goals: mergeGoals(prev.Goals, s.goal)}
+		}
+	}
+	sb, _ := json.MarshalIndent(sites, " ", " ")
+	doc["sites"] = sb
+	keys := []string{"_comment", "assumed_preconditions", "sites", "other_sites"}
+	var out strings.Builder
+	out.WriteString("{\n")
+	first := true
+	for _, k := range keys {
+		v, ok := doc[k]
+		if !ok {
+			continue
+		}
+		if !first {
+			out.WriteString(",\n")
+		}
+		first = false
+		out.WriteString(fmt.Sprintf(" %q: %s", k, string(v)))
+	}
+	out.WriteString("\n}\n")
+	if err := os.WriteFile(path, []byte(out.String()), 0o644); err != nil {
+		return err
+	}
+	bb, _ := json.MarshalIndent(map[string]any{
+		"_comment": "How the reviewed tree decided every index/slice/encoding-binary site in the attacker-reachable scope, keyed function|kind|normalised shape. Generated by `dtlsvet -gen-bounds-baseline`; a site listed as proved that is no longer proven is a regression.",
+		"sites":    base,
+	}, "", " ")
+	return os.WriteFile(filepath.Join(c.VerifDir, "spec", "bounds_baseline.json"), append(bb, '\n'), 0o644)
+}
+
+func mergeGoals(a, b string) string {
+	m := map[string]bool{}
+	for _, g := range strings.Split(a+","+b, ",") {
+		if g != "" {
+			m[g] = true
+		}
+	}
+	var out []string
+	for g := range m {
+		out = append(out, g)
+	}
+	sort.Strings(out)
+	return strings.Join(out, ",")
 }
